@@ -49,22 +49,22 @@ type Replay struct {
 }
 
 type blockStats struct {
-	Block       string           `json:"block"`
-	Worker      int              `json:"worker"`
-	Inputs      int64            `json:"inputs"`
-	Evals       int64            `json:"evals"`
-	NonTrivial  int64            `json:"nontrivial"`
-	Laws        lawCounter       `json:"laws"`
-	Compared    int64            `json:"compared"`
-	TightEFail  int64            `json:"tight_e_fail"`
-	Guards      map[string]int64 `json:"guards"`
-	Classes     []string         `json:"classes"`
-	Skipped     int64            `json:"skipped"`
-	Candidates  []candidate      `json:"candidates"`
-	HarnessErr  string           `json:"harness_err,omitempty"`
-	ElapsedS    float64          `json:"elapsed_s"`
-	classSet    map[string]bool
-	candByKey   map[string]*candidate
+	Block      string           `json:"block"`
+	Worker     int              `json:"worker"`
+	Inputs     int64            `json:"inputs"`
+	Evals      int64            `json:"evals"`
+	NonTrivial int64            `json:"nontrivial"`
+	Laws       lawCounter       `json:"laws"`
+	Compared   int64            `json:"compared"`
+	TightEFail int64            `json:"tight_e_fail"`
+	Guards     map[string]int64 `json:"guards"`
+	Classes    []string         `json:"classes"`
+	Skipped    int64            `json:"skipped"`
+	Candidates []candidate      `json:"candidates"`
+	HarnessErr string           `json:"harness_err,omitempty"`
+	ElapsedS   float64          `json:"elapsed_s"`
+	classSet   map[string]bool
+	candByKey  map[string]*candidate
 }
 
 func newBlockStats(name string, w int) *blockStats {
@@ -285,6 +285,7 @@ func (fr *flatRunner) runBlock(bi int, b *Lattice, shard, nshards int, budget *e
 	T, G := len(tuples), len(globals)
 	qs := make([]QP, b.N)
 	idx := make([]int, b.N)
+	aborted := false
 	var rec func(pos int, g int)
 	rec = func(pos int, g int) {
 		if pos == b.N {
@@ -293,6 +294,10 @@ func (fr *flatRunner) runBlock(bi int, b *Lattice, shard, nshards int, budget *e
 			return
 		}
 		for i := idx[pos-1]; i < T; i++ {
+			if aborted || (pos == 1 && budget.Exceeded()) {
+				aborted = true
+				return
+			}
 			idx[pos] = i
 			qs[pos] = tuples[i]
 			rec(pos+1, g)
@@ -310,6 +315,9 @@ func (fr *flatRunner) runBlock(bi int, b *Lattice, shard, nshards int, budget *e
 			idx[0] = i0
 			qs[0] = tuples[i0]
 			rec(1, g)
+			if aborted { // deadline hit inside the item: it is only partly covered
+				st.Skipped++
+			}
 		}
 	}
 	st.finish(start)
@@ -449,10 +457,18 @@ func run(tier string) int {
 	return parent(tier)
 }
 
+var ballast []byte
+
 func worker(tier string, shard, nshards int) int {
 	// allocation-heavy callee, tiny live heap: collect only when 1 GiB of garbage has piled up
-	debug.SetGCPercent(-1)
-	debug.SetMemoryLimit(int64(envInt("VERIF_C09_MEMLIMIT_MB", 64)) << 20)
+	if mb := envInt("VERIF_C09_MEMLIMIT_MB", 0); mb > 0 {
+		debug.SetGCPercent(-1)
+		debug.SetMemoryLimit(int64(mb) << 20)
+	} else {
+		// heap ballast (never touched, so it costs address space only): with GOGC=100 a collection
+		// runs once per ~ballast bytes of garbage instead of once per few MB
+		ballast = make([]byte, envInt("VERIF_C09_BALLAST_MB", 128)<<20)
+	}
 	budget := engine.NewBudget(deadline(tier))
 	fr, err := newFlatRunner()
 	if err != nil {
@@ -461,14 +477,21 @@ func worker(tier string, shard, nshards int) int {
 		return 0
 	}
 	// hierarchy first (cheap), then the flat blocks from cheapest to largest
+	only := os.Getenv("VERIF_C09_ONLY") // diagnostics: run a single block
 	trees := treeLattices(tier)
 	for bi := range trees {
+		if only != "" && only != trees[bi].Name {
+			continue
+		}
 		st := runTreeBlock(bi, &trees[bi], shard, nshards, budget)
 		engine.Emit(st)
 		engine.FlushEmit()
 	}
 	blocks := Blocks(tier)
 	for bi := range blocks {
+		if only != "" && only != blocks[bi].Name {
+			continue
+		}
 		st := fr.runBlock(bi, &blocks[bi], shard, nshards, budget)
 		engine.Emit(st)
 		engine.FlushEmit()
@@ -651,7 +674,7 @@ func parent(tier string) int {
 			"seeds": "+ identity insertion order under map seeds 1..n-1 (rotates the internally built maps differently from the queue map)",
 			"tb":    "+ tie-break 1 (reversed creation timestamps: last queue oldest) x {identity, reversed} insertion order",
 			"all":   "tie-break {0,1} x all n! insertion orders x map seeds 0..n-1",
-			"note":     "map seeds s >= n iterate every map with <= n entries exactly like seed 0 (asserted at start-up by probing the real maps under seeds 0..7), so seeds 0..7 collapse to 0..n-1",
+			"note":  "map seeds s >= n iterate every map with <= n entries exactly like seed 0 (asserted at start-up by probing the real maps under seeds 0..7), so seeds 0..7 collapse to 0..n-1",
 		},
 	}
 	known := rep.KnownHits()
